@@ -428,6 +428,10 @@ def unpack_opargs_bytecode_310(code, opc):
         if op_has_argument(op, opc):
             arg = code2num(code, offset + 1) | extended_arg
             extended_arg = extended_arg_val(opc, arg) if op == opc.EXTENDED_ARG else 0
+            # From 3.11 on the operand is reported as the signed 32-bit int it
+            # is kept in, as dis does.
+            if opc.version_tuple >= (3, 11) and extended_arg >= 2**31:
+                extended_arg -= 2**32
         else:
             arg = None
         yield offset, op, arg
